@@ -76,7 +76,9 @@ deriving DecidableEq, Repr
 def entriesOf (d : Dag) : List Entry :=
   d.starts.map (⟨d.id, .start, ·⟩) ++ d.stops.map (⟨d.id, .stop, ·⟩) ++ d.restarts.map (⟨d.id, .restart, ·⟩)
 
-/-- `entryReaderImpl.Read`: suspended DAGs contribute nothing -/
+/-- `entryReaderImpl.Read`: suspended DAGs contribute nothing.  Suspension is looked up by the FILE id
+    (`d.id` = base name of the DAG file without extension, the key every writer of suspend flags uses),
+    never by the `name:` a definition may carry — the model has no other notion of a DAG's identity. -/
 def readEntries (dags : List Dag) (susp : Nat → Bool) : List Entry :=
   (dags.filter (fun d => !susp d.id)).flatMap entriesOf
 
